@@ -13,7 +13,7 @@ import (
 
 func init() {
 	register(&Prop{
-		ID: "C05",
+		ID:   "C05",
 		Rule: "the documents of C04 (random G-article pages and the carrier x placement grid) with id/class/style/onclick/onload/data-*/unknown attributes stamped on every generated element (unique values, so a surviving attribute identifies its origin). Every element and attribute of Result.Node is inspected. Non-trivial = output contains elements; distinct = distinct (output path kinds present: text, list, image, picture, figure, caption, video, table, embed).",
 		Assumptions: []string{
 			"the embed placeholder wrapper is the div with class embed-placeholder; it may carry exactly class, data-type and data-id",
@@ -115,6 +115,7 @@ func runC05(c *Ctx, idx int) {
 	if bad {
 		return
 	}
+	c.Count("mxss_carriers", int64(ar.G.L.MXSS))
 	c.Count("elements_inspected", nel)
 	c.Count("attributes_inspected", nattr)
 	var ks []string
@@ -127,7 +128,9 @@ func runC05(c *Ctx, idx int) {
 	if nel > 0 {
 		c.Sig(strings.Join(ks, ","))
 	}
-	c.Sample(func() any { return map[string]any{"case": idx, "html": trunc(ar.Src, 1500), "elements": nel, "attributes": nattr} })
+	c.Sample(func() any {
+		return map[string]any{"case": idx, "html": trunc(ar.Src, 1500), "elements": nel, "attributes": nattr}
+	})
 }
 
 // pathKind names the kind of output path an element sits in.
